@@ -178,6 +178,26 @@ def _valform(lo, hi, ae, exp):
     return z3.Implies(z3.And(*strs.pow10_axioms(lo, hi)), ae == exp) if lo != hi else (ae == exp)
 
 
+def _confirm(c, lab, lo, hi, ae, exp, rparts, oparts, f):
+    """The component-wise obligation f (same sign, digits, exponent) is sufficient, not
+    necessary.  A cell fails only if the VALUES can differ: look for a model of NOT f with
+    non-zero digits and compare the two values exactly (sign*digits*10^exponent as
+    rationals); if that does not settle it, ask z3 for the values directly with the
+    pow10 facts as hypotheses.  Returns a model or None."""
+    if rparts is not None and oparts is not None:
+        r, m = c.solve(z3.And(z3.Not(f), rparts[1] != 0, oparts[1] != 0), full=True)
+        if r == 'sat':
+            def val(parts):
+                sg, M, E = [m.eval(x, model_completion=True).as_long() for x in parts]
+                return sg * M * Fraction(10) ** E
+            if val(rparts) != val(oparts):
+                c.stats['ob_sat'] += 1; c.stats['obligations'] += 1
+                return m
+    if c.prove(_valform(lo, hi, ae, exp), lab + ':value') == 'sat':
+        return ([f_ for f_ in c.failures if f_['label'] == lab + ':value'] or [dict(model=None)])[-1]['model']
+    return None
+
+
 def concretize(m, sstr, printed=None):
     """the row text for a model (cells the model does not constrain keep the printed character)."""
     out = []
@@ -257,14 +277,28 @@ def task_table(rel, ti, window, variant, nother):
         texts[k] = nt
         vtag = 'noE@%s' % where
     toks = {k: cc.tokenize_row(texts[k], int_first) for k in texts}
-    okeypos = {k: cc.printed_keys(texts[k], toks[k][0]['start'], nkeys) for k in texts}
-    if any(v is None for v in okeypos.values()): raise ValueError('extractor found no printed names in a row of %s/%s' % (rel, kind))
-    allkeys = []
+    # printed names: found in the longest row; names are printed in fixed columns, so the
+    # same positions hold in every row of the block (a row index that has grown into the
+    # name field, as in 'al1010', makes a row ambiguous on its own)
+    kp_table = cc.printed_keys(texts[li], toks[li][0]['start'], nkeys)
+    if kp_table is None: raise ValueError('extractor found no printed names in the longest row of %s/%s' % (rel, kind))
+    okeypos = {}
+    for k in texts:
+        own = cc.printed_keys(texts[k], toks[k][0]['start'], nkeys)
+        okeypos[k] = kp_table
+        if own is not None and own != kp_table and all(texts[k][p + 4].isdigit() for p in own) and \
+           not all(texts[k][p + 4].isdigit() for p in kp_table):
+            raise ValueError('names of row %d of %s/%s are not in the columns of the longest row' % (k, rel, kind))
+    rowkeys = []
     for r in rows:                      # row names of the whole block, by the independent oracle
-        tr = cc.tokenize_row(r, int_first)
-        kp = cc.printed_keys(r, tr[0]['start'], nkeys) if tr else None
-        names = tuple(cc.fix_name(r[p:p + 5]) for p in kp) if kp else ('?',) * nkeys
-        allkeys.append(names[0] if nkeys == 1 else names)
+        names = tuple(cc.fix_name(r[p:p + 5]) for p in kp_table)
+        rowkeys.append(names[0] if nkeys == 1 else names)
+    # rows printed twice (TOUGH2_MP prints some rows on several processors; the reader keeps
+    # one per row index - outside this claim): one table row per distinct key, in order
+    allkeys = []
+    for x in rowkeys:
+        if x not in allkeys: allkeys.append(x)
+    rowidx = {k: allkeys.index(rowkeys[k]) for k in texts}
     lends = [t['end'] for t in toks[li]]
     failures, samples, distinct = [], [], set()
     notes = []
@@ -293,7 +327,7 @@ def task_table(rel, ti, window, variant, nother):
                     key='%s/%s' % (base_key, stage), what='%s %s table (%s): %s' % (rel, kind, vtag, what),
                     replay=dict(file=rel, kind=kind, header=tab['header'], nkeys=nkeys, int_first=int_first,
                                 longest=concretize(m, sy[li], texts[li]), longest_tokens=toks[li],
-                                rows=[dict(index=k, text=concretize(m, sy[k], texts[k]), tokens=toks[k], keypos=okeypos[k])
+                                rows=[dict(index=rowidx[k], text=concretize(m, sy[k], texts[k]), tokens=toks[k], keypos=okeypos[k])
                                       for k in [li] + others],
                                 allkeys=[list(x) if isinstance(x, tuple) else x for x in allkeys],
                                 stage=stage, row=row, variant=vtag)))
@@ -338,9 +372,9 @@ def task_table(rel, ti, window, variant, nother):
             if nkeys == 1: okey = okey[0]
             try:
                 if obj.simulator == 'AUTOUGH2':
-                    key = allkeys[k]           # read_table_AUTOUGH2 addresses rows by position
+                    key = allkeys[rowidx[k]]   # read_table_AUTOUGH2 addresses rows by position
                     vals = obj.read_table_line_AUTOUGH2(rl, fmt=row_format)
-                    table[k] = vals
+                    table[rowidx[k]] = vals
                     gotkey = table.key_from_line(rl)
                 else:
                     gotkey = key = table.key_from_line(rl)
@@ -352,8 +386,8 @@ def task_table(rel, ti, window, variant, nother):
                 return 'read-raises'
             if gotkey != okey:
                 fail('key', 'row %d keyed %r, printed names %r' % (k, gotkey, okey), row=k); return 'key-wrong'
-            by_name, by_index = table[key], table[k]
-            if by_name is None or by_name['key'] != key or by_index['key'] != allkeys[k]:
+            by_name, by_index = table[key], table[rowidx[k]]
+            if by_name is None or by_name['key'] != key or by_index['key'] != allkeys[rowidx[k]]:
                 fail('addressing:key', 'row %d: table[name] / table[index] do not return the row' % k, row=k); return 'addr-wrong'
             rev = table[key[::-1]] if (kind == 'connection' and nkeys == 2 and key[::-1] not in table._row) else None
             # alignment of this row's printed numbers with the columns (right ends, Fortran fields)
@@ -366,7 +400,7 @@ def task_table(rel, ti, window, variant, nother):
             items = []
             valforms = {}
             for j, col in enumerate(cols):
-                a, b, cc_ = by_name[col], by_index[col], table[col][k]
+                a, b, cc_ = by_name[col], by_index[col], table[col][rowidx[k]]
                 if _is_nan(a):
                     fail('nan:%s' % col, 'row %d column %s read as nan' % (k, col), row=k, classify=True); return 'nan'
                 if j < len(tk):
@@ -382,7 +416,7 @@ def task_table(rel, ti, window, variant, nother):
                     f = ae == exp
                 if not z3.is_true(z3.simplify(f)):
                     distinct.add(('%s:%d' % (col, k), z3.simplify(f).hash()))
-                valforms['col:%s' % col] = (lo, hi, ae, exp)
+                valforms['col:%s' % col] = (lo, hi, ae, exp, rparts, oparts, f)
                 items.append((f, 'col:%s' % col))
                 items.append((sym.lift_real(b) == ae, 'addressing:index:%s' % col))
                 items.append((sym.lift_real(cc_) == ae, 'addressing:column:%s' % col))
@@ -392,22 +426,21 @@ def task_table(rel, ti, window, variant, nother):
             # the component-wise form is sufficient, not necessary: a cell only fails if the VALUES can differ
             confirmed = []
             for lab, r in bad:
-                if lab in valforms and r == 'sat' and c.prove(_valform(*valforms[lab]), lab + ':value') == 'unsat':
-                    continue
-                confirmed.append((lab, r)); break
+                fl = ([f_ for f_ in c.failures if f_['label'] == lab] or [None])[-1]
+                m = fl['model'] if fl is not None else None
+                if lab in valforms and r == 'sat':
+                    m = _confirm(c, lab, *valforms[lab])
+                    if m is None: continue
+                confirmed.append((lab, r, m)); break
             bad = confirmed
             if bad:
-                lab = bad[0][0]
-                j = [i for i, (f, l) in enumerate(items) if l == lab][0]
-                fl = ([f_ for f_ in c.failures if f_['label'] == lab + ':value'] or
-                      [f_ for f_ in c.failures if f_['label'] == lab] or [None])[-1]
-                if bad[0][1] == 'sat' and fl is not None:
-                    m = fl['model']
+                lab, _, m = bad[0]
+                if bad[0][1] == 'sat' and m is not None:
                     failures.append(dict(
                         key='%s/%s:%s' % (base_key, lab, _trigger(concretize(m, sy[li], texts[li]), toks[li], cols)), what='%s %s table (%s): row %d, %s differs from the printed number' % (rel, kind, vtag, k, lab),
                         replay=dict(file=rel, kind=kind, header=tab['header'], nkeys=nkeys, int_first=int_first,
                                     longest=concretize(m, sy[li], texts[li]), longest_tokens=toks[li],
-                                    rows=[dict(index=kk, text=concretize(m, sy[kk], texts[kk]), tokens=toks[kk], keypos=okeypos[kk])
+                                    rows=[dict(index=rowidx[kk], text=concretize(m, sy[kk], texts[kk]), tokens=toks[kk], keypos=okeypos[kk])
                                           for kk in [li] + others],
                                     allkeys=[list(x) if isinstance(x, tuple) else x for x in allkeys],
                                     stage=lab, row=k, variant=vtag)))
@@ -443,6 +476,8 @@ def windows(ntok, K):
     return out
 
 
+QUICK_CONNECTION = ('AUTOUGH2/1/case1.listing', 'TOUGH2/3/OUTFILE', 'TOUGHplus/1/case1.dat')
+
 def build_tasks(tier):
     K = 3 if tier == 'quick' else 5
     nother = 2 if tier == 'quick' else 6
@@ -451,7 +486,10 @@ def build_tasks(tier):
     ntables = 0
     for rel in files:
         fam, tabs = file_tables(rel)
-        sel = range(len(tabs)) if tier == 'thorough' else range(min(1, len(tabs)))
+        sel = list(range(len(tabs))) if tier == 'thorough' else list(range(min(1, len(tabs))))
+        if tier == 'quick' and rel in QUICK_CONNECTION:
+            # one connection table per simulator family too (two names per row, reversed-key addressing)
+            sel += [i for i, t in enumerate(tabs) if t['kind'] == 'connection'][:1]
         for ti in sel:
             tab = tabs[ti]
             ntables += 1
@@ -548,7 +586,7 @@ def run(tier, seed, rep):
     rep.bounds += [
         '%d shipped listing files (backup copies *~ skipped), %d tables (%s), rows from the first block of <= 60 result lines of each table: '
         'the longest row and %d other rows (most minus signs, shortest, first, last, ...)' % (
-            nfiles, ntables, 'first table of each file' if tier == 'quick' else 'first table of each kind in each file', nother),
+            nfiles, ntables, 'first table of each file, plus the first connection table of 3 files' if tier == 'quick' else 'first table of each kind in each file', nother),
         'every digit of every printed number (mantissa and exponent) is a symbolic digit 0..9, in the longest row and in the other rows',
         'sign positions over {blank, minus}: all of them at once in the rows that are read; in the longest row of TOUGH2-family tables '
         '(where each one forks parse_table_line) windows of %d consecutive columns at a time, all windows, the other signs as printed' % K,
